@@ -46,7 +46,14 @@ def generate(rng, seed, index, tier):
             plist.append("default")
             continue
         kw = gen.gen_params(rng, problems[0], starts[0][0], starts[0][1], p_knob=0.5, scaling=False, reporting=True, numeric=0.2)
-        if rng.random() < 0.5:
+        u_ = rng.random()
+        if u_ < 0.15:
+            # computed scalings: the scaling point is the start of the solve that creates the solver, so two
+            # solvers on one problem object get different scalings
+            kw["scaling_type"] = str(rng.choice(["GradJac", "Nominal", "KKT"]))
+            kw["scaling_primal"] = "x0"
+            kw["scaling_dual"] = "y0"
+        elif u_ < 0.6:
             kw["scaling_type"] = "Custom"  # weights are per problem: filled in per solver below
         kw["iteration_limit"] = int(rng.choice([3, 8, 25, 60]))
         if rng.random() < 0.35:
@@ -89,7 +96,14 @@ def generate(rng, seed, index, tier):
                 scaling = other[0]["scaling"]
             else:
                 scaling = {"var": rng.integers(-3, 4, size=problems[pid]["n"]).tolist(), "cons": rng.integers(-3, 4, size=problems[pid]["m"]).tolist(), "obj": int(rng.integers(-2, 3))}
-        solvers.append({"sid": sid, "pid": pid, "prm": prm, "scaling": scaling})
+        spoint = None
+        if plist[prm] != "default" and plist[prm].get("scaling_type") in ("GradJac", "Nominal", "KKT"):
+            # the scaling point belongs to the solver (it is used when the solver is built), not to a solve
+            import numpy as np
+
+            sp_ = problems[pid]
+            spoint = [np.clip(np.round(rng.normal(size=sp_["n"]) * 2, 3), sp_["xl"], sp_["xu"]).tolist(), np.round(rng.normal(size=sp_["m"]), 3).tolist()]
+        solvers.append({"sid": sid, "pid": pid, "prm": prm, "scaling": scaling, "spoint": spoint})
     if rng.random() < 0.25:
         # the other solver class of the package takes part in the history as well (own parameters)
         ok = [i for i, p in enumerate(problems) if p["family"] in ("qp", "nlp", "convex-qp")]
@@ -108,6 +122,10 @@ def generate(rng, seed, index, tier):
             made.add(s["sid"])
         if last is not None and rng.random() < 0.25 and last["sid"] in made:
             op = copy.deepcopy(last)  # identical repeat
+            if rng.random() < 0.4 and len(op["y0"]):
+                import numpy as np
+
+                op["y0"] = (np.asarray(op["y0"], float) + 1.0).tolist()  # the same start, other multipliers
         else:
             x0, y0 = starts[s["pid"]]
             if rng.random() < 0.5 and problems[s["pid"]]["family"] != "convex-qp":
@@ -143,6 +161,12 @@ def _op_world(world, op, solver_def, shift=0.0):
     params = "default" if prm == "default" else dict(prm)
     if params != "default" and solver_def.get("scaling") is not None:
         params["scaling"] = solver_def["scaling"]
+    if params != "default" and solver_def.get("spoint") is not None:
+        params["scaling_primal"], params["scaling_dual"] = solver_def["spoint"]
+    elif params != "default" and params.get("scaling_type") in ("GradJac", "Nominal", "KKT"):
+        params.pop("scaling_type", None)
+        params.pop("scaling_primal", None)
+        params.pop("scaling_dual", None)
     return {
         "problem": c["problems"][solver_def["pid"]],
         "x0": op["x0"],
@@ -231,7 +255,7 @@ def case(world):
                 ex = execute(w, problem=prob, params="default")
                 bump("ops.default_params")
             else:
-                key = (d["prm"], repr(d.get("scaling")))
+                key = (d["prm"], repr(d.get("scaling")), repr(d.get("spoint")))
                 if key not in params:
                     params[key] = build_params(w)
                 else:
